@@ -55,6 +55,7 @@ func init() {
 			ruleNUM4(c)
 			ruleNUM5(c)
 			ruleNUM6(c)
+			ruleEMIT1(c, "NUM-7")
 		},
 	})
 	register(&PropSpec{
@@ -69,6 +70,8 @@ func init() {
 			ruleFMT4(c)
 			ruleFMT5(c)
 			ruleFMT6(c)
+			ruleLEX7(c)
+			ruleLEX8(c)
 		},
 	})
 
@@ -80,6 +83,7 @@ func init() {
 		Run: func(c *Ctx) {
 			ruleNG1(c)
 			ruleNG2(c)
+			ruleNG2b(c)
 			ruleFMT4(c)
 			ruleNG3(c)
 			ruleLEX1(c)
@@ -146,6 +150,8 @@ func init() {
 			ruleLEX4(c)
 			ruleLEX5(c)
 			ruleLEX6(c)
+			ruleLEX7(c)
+			ruleLEX8(c)
 			ruleFMT1(c)
 			ruleFMT2(c)
 			ruleFMT3(c)
